@@ -92,4 +92,14 @@ def morph_predicates(parents, ncomps) -> List[str]:
         out.append("three_children_at_branchpoint")
     if len(parents) == 1:
         out.append("unbranched")
+    if parents_first_mention_unsorted(parents):
+        out.append("parent_first_mention_unsorted")
     return out
+
+
+def parents_first_mention_unsorted(parents) -> bool:
+    """The list of parents (in branch order) mentions a higher-index parent before a lower-index one for the first time,
+    e.g. [-1, 0, 0, 2, 1]: code that de-duplicates parents by first appearance instead of sorting treats these differently."""
+    q = [p for p in parents if p >= 0]
+    fm = list(dict.fromkeys(q))
+    return fm != sorted(fm)
